@@ -11,6 +11,13 @@
 //!                   the order recovery uses it (direct API: open -> validate -> read, and
 //!                   through RecoveryManager::recover / WalRotator::recover_all_entries):
 //!                   error (or, WAL, a shorter entry list) or identical projection; no panic
+//!   roundtrip_sizes serialized updates of exactly 64 KiB, 1 MiB-64..1 MiB+64, 2 MiB, 8 MiB (one
+//!                   string / a 64-field hash) between two small ones, through every encoding
+//!   mut_segment_compact  a damaged segment among 2-3, then the real Compactor::compact (a second
+//!                   consumer of segments), then RecoveryManager::recover: error or the merge of
+//!                   what was written - never data laundered under a fresh checksum
+//! Other public readers driven with the mutated images: recover_with_progress,
+//! CheckpointManager::load_checkpoint, WalRotator::recover_entries_after.
 
 mod worldgen;
 
@@ -573,6 +580,29 @@ fn enumerate(
         .iter()
         .map(|(fr, b)| ((*fr as usize * n) >> 16, b % 8))
         .collect();
+    let mut buf = img.to_vec();
+    // sampled body bytes first (only when the image is not enumerated completely): a defect
+    // that needs a body mutation then shows after a few evaluations, which keeps shrinking cheap
+    if !full {
+        let mut seen: Vec<usize> = Vec::new();
+        for (pos, b) in &sampled {
+            if *pos >= n || structural(*pos) || seen.contains(pos) {
+                continue;
+            }
+            seen.push(*pos);
+            let old = img[*pos];
+            let mut variants = vec![old ^ (1 << b), 0x00, 0xff];
+            variants.retain(|v| *v != old);
+            variants.sort();
+            variants.dedup();
+            for new in variants {
+                buf[*pos] = new;
+                f(Mutation::Byte { pos: *pos, old, new }, &buf)?;
+                count += 1;
+            }
+            buf[*pos] = old;
+        }
+    }
     // truncations
     for l in 0..n {
         let take = full
@@ -587,7 +617,6 @@ fn enumerate(
         }
     }
     // byte mutations
-    let mut buf = img.to_vec();
     for pos in 0..n {
         let old = img[pos];
         let mut variants: Vec<u8> = Vec::with_capacity(10);
@@ -597,14 +626,6 @@ fn enumerate(
             }
             variants.push(0x00);
             variants.push(0xff);
-        } else {
-            for (p, b) in &sampled {
-                if *p == pos {
-                    variants.push(old ^ (1 << b));
-                    variants.push(0x00);
-                    variants.push(0xff);
-                }
-            }
         }
         variants.retain(|v| *v != old);
         variants.sort();
@@ -1331,11 +1352,21 @@ fn check_mut_segment_compact(case: &CompactCase, ctx: &mut CaseCtx<'_>) -> Resul
             }
             Ok(Ok((got, ran))) => {
                 if got != truth {
-                    let a: Vec<J> = truth.iter().map(|(k, v)| json!([k, v])).collect();
-                    let b: Vec<J> = got.iter().map(|(k, v)| json!([k, v])).collect();
+                    let mut what = Vec::new();
+                    for key in truth.keys().chain(got.keys()) {
+                        match (truth.get(key), got.get(key)) {
+                            (Some(a), Some(b)) if a == b => {}
+                            (Some(_), Some(b)) => what.push(format!("key {:?} now merges to {}", key, b["fields"])),
+                            (Some(_), None) => what.push(format!("key {:?} is gone", key)),
+                            (None, Some(_)) => what.push(format!("key {:?} was never written", key)),
+                            (None, None) => {}
+                        }
+                    }
+                    what.dedup();
+                    what.truncate(3);
                     return Err(format!(
                         "segment {} of {}, {}: Compactor::compact (reported {}) consumed the damaged segment; recovery afterwards succeeds with data that was never written: {}",
-                        which, k, m.describe(n, field), if ran { "Ok" } else { "Err" }, first_diff(&a, &b)
+                        which, k, m.describe(n, field), if ran { "Ok" } else { "Err" }, what.join("; ")
                     ));
                 }
                 laundered_ok += 1;
@@ -1440,6 +1471,7 @@ fn main() {
          roundtrip: each batch through WalEntry, WalRotator files, segment, checkpoint and the five gossip variants. \
          mut_*: per generated image EVERY truncation length and every byte x {8 single-bit flips, 0x00, 0xFF} (images > 3000 bytes, thorough tier > 16 KiB: all header/footer/length bytes + 192 sampled body bytes), \
          each through the direct reader pipeline and through RecoveryManager::recover / WalRotator::recover_all_entries. \
+         roundtrip_sizes: serialized size of one update aimed exactly at 64 KiB, 1 MiB +- {0,1,16,17,64}, 2 MiB, 8 MiB. mut_segment_compact: structural + sampled mutations of one of 2-3 segments, then Compactor::compact, then recover. \
          non-trivial = (roundtrip) the batch shows >= 2 components beyond a plain live string (hash, tombstone, field tombstone, expiry, vector clock, rf, counter, set, non-UTF-8 payload); \
          (mut_*) always, because every length/checksum/count byte of the image is among the mutations; distinct by generated world (+ encoding)",
         &args,
@@ -1499,7 +1531,7 @@ fn main() {
     s.describe_check("roundtrip", "batch of 1-50 updates through every encoding; projection identical");
     s.run_cases(
         "roundtrip",
-        s.scale(1_500, 150_000),
+        s.scale(2_000, 150_000),
         || {
             (
                 worldgen::world(rt_cfg()),
@@ -1523,13 +1555,13 @@ fn main() {
     s.run_enumerated("roundtrip_sizes", size_cases().into_iter(), check_sizes);
 
     s.describe_check("mut_segment", "all truncations + all byte mutations of one segment image; error or identical");
-    s.run_cases("mut_segment", s.scale(600, 24_000), mut_case, check_mut_segment);
+    s.run_cases("mut_segment", s.scale(800, 24_000), mut_case, check_mut_segment);
     s.describe_check("mut_checkpoint", "all truncations + all byte mutations of one checkpoint image; error or identical");
-    s.run_cases("mut_checkpoint", s.scale(600, 24_000), mut_case, check_mut_checkpoint);
+    s.run_cases("mut_checkpoint", s.scale(800, 24_000), mut_case, check_mut_checkpoint);
     s.describe_check("mut_wal", "all truncations + all byte mutations of every file of a WAL file set; prefix of the written entries, identical data");
-    s.run_cases("mut_wal", s.scale(600, 24_000), mut_case, check_mut_wal);
+    s.run_cases("mut_wal", s.scale(800, 24_000), mut_case, check_mut_wal);
     s.describe_check("mut_segment_compact", "structural + sampled mutations of one of 2-3 segments, then Compactor::compact, then RecoveryManager::recover: error, or the merge of what was written");
-    s.run_cases("mut_segment_compact", s.scale(150, 12_000), compact_case, check_mut_segment_compact);
+    s.run_cases("mut_segment_compact", s.scale(300, 12_000), compact_case, check_mut_segment_compact);
 
     let g = OUTCOMES.lock().unwrap();
     let table: BTreeMap<&String, J> = g
